@@ -18,25 +18,33 @@ from pydcop.computations_graph import constraints_hypergraph
 SHAPES = ["path3", "triangle", "fork3", "star4", "cycle4", "tritail", "path4", "kite", "path5"]
 
 
-def deployment(inst, dep, algo="dsa"):
+def deployment(inst, dep, algo="dsa", style=0):
+    """style 1: agent names that sort before '__hosting__' (upper case) and hosting costs drawn from the same values as the
+    route costs (1, 2, 5), so that "host here" and "forward to a neighbour" tie in the uniform-cost search"""
     dcop, doms = build_dcop(inst)
-    names = ["a%d" % i for i in range(1, dep["nag"] + 1)]
+    names = [("A%d" if style else "a%d") % i for i in range(1, dep["nag"] + 1)]
     comps = list(inst["vars"])
     for i, a in enumerate(names):
         routes = {names[j]: dep["route"][i][j] for j in range(len(names)) if j != i}
         hosting = {comps[c]: dep["hosting"][i][c] for c in range(len(comps)) if dep["hosting"][i][c]}
-        dcop._agents_def[a] = AgentDef(a, capacity=dep["cap"][i], default_route=1, routes=routes, default_hosting_cost=0, hosting_costs=hosting)
+        if style:
+            hosting = {comps[c]: {0: 1, 3: 2, 8: 5}[dep["hosting"][i][c]] for c in range(len(comps))}
+        dcop._agents_def[a] = AgentDef(a, capacity=100 if style else dep["cap"][i], default_route=1, routes=routes, default_hosting_cost=0, hosting_costs=hosting)
     mapping = {a: [] for a in names}
-    for c, ai in zip(comps, dep["place"]):
+    place = dep["place"]
+    if style and len(comps) >= len(names):
+        # every agent hosts a computation: the replication graph (agents hosting neighbour computations) spans all the agents
+        place = [(dep["place"][0] + i) % len(names) + 1 for i in range(len(comps))]
+    for c, ai in zip(comps, place):
         mapping[names[ai - 1]].append(c)
     cg = constraints_hypergraph.build_computation_graph(dcop)
     algo_def = AlgorithmDef.build_with_default_param(algo, {}, mode=dcop.objective)
     return dcop, cg, algo_def, Distribution(mapping), names, comps
 
 
-def one_run(hid, inst, dep, sseed):
+def one_run(hid, inst, dep, sseed, style=0):
     r = random.Random(sseed)
-    dcop, cg, algo_def, dist, names, comps = deployment(inst, dep)
+    dcop, cg, algo_def, dist, names, comps = deployment(inst, dep, style=style)
     w = OrchWorld(dcop, algo_def, cg, dist, infinity=10000, replication="dist_ucs_hostingcosts", seed=sseed)
     w.boot_all(order=r)
     stuck = w.deploy()
@@ -52,11 +60,11 @@ def one_run(hid, inst, dep, sseed):
     dirreps = {c: sorted(dd._replicas_data[c]) if c in dd._replicas_data else [] for c in comps}
     exc = ["%s: %s" % (e[0], e[4]) for e in w.exc]
     scale = 1
-    return {"id": hid, "agents": names, "comps": comps, "cap": {a: dep["cap"][i] for i, a in enumerate(names)},
+    return {"id": hid, "agents": names, "comps": comps, "cap": {a: (100 if style else dep["cap"][i]) for i, a in enumerate(names)},
             "owner": {c: dist.agent_for(c) for c in comps}, "fp": {c: int(fp[c]) for c in comps}, "k": dep["k"],
             "done": done, "hosts": hosts, "held": held, "dirReps": dirreps,
             "accepts": [{"a": x["a"], "c": x["c"], "held": x["held"]} for x in w.accepts], "exc": exc}, \
-        {"shape": inst["shape"], "dep": dep, "stuck": stuck, "steps": dict(w.phase_steps), "inst": inst, "fp_float": fp, "sched_seed": sseed}
+        {"shape": inst["shape"], "dep": dep, "stuck": stuck, "steps": dict(w.phase_steps), "inst": inst, "fp_float": fp, "sched_seed": sseed, "style": style}
 
 
 def run(tier):
@@ -68,14 +76,17 @@ def run(tier):
     recs, meta = [], {}
     for inst in insts:
         nc = len(inst["vars"])
-        for nag in ((3, 4) if quick else (3, 4, 5, 6)):
+        for nag in ((3, 4, 5) if quick else (3, 4, 5, 6)):
             # capacities from "too small for any replica" to ample; footprints of DSA computations are around 10-40
-            deps, dres = CC.generate("Gen_C25", consts=dict(NAg=nag, NComp=nc, NCases=2 if quick else 5, Caps={3, 4, 6, 9, 100}, Ks={1, 2, 3}),
+            deps, dres = CC.generate("Gen_C25", consts=dict(NAg=nag, NComp=nc, NCases=(2 if nag < 5 else 1) if quick else 5, Caps={3, 4, 6, 9, 100}, Ks={1, 2, 3}),
                                      workers=2, seed=seed() + nag * 100 + nc)
             v.add_tlc(dres, "deployments (Gen_C25, %d agents, %d computations)" % (nag, nc))
             for dep in deps:
                 for rep in range(2 if quick else 6):       # several interleavings of the agents' loop iterations
-                    rec, m = one_run(len(recs), inst, dep, r.randrange(10 ** 6))
+                    style = rep % 2
+                    # (the tie-heavy style is about the replica count: it needs k >= 2 and more candidates than replicas)
+                    d2 = dict(dep, k=min(max(dep["k"], 2), nag - 2)) if style and nag >= 4 else dep
+                    rec, m = one_run(len(recs), inst, d2, r.randrange(10 ** 6), style=style)
                     meta[rec["id"]] = m
                     recs.append(rec)
     verdicts, jres = judge("Judge_C25", recs, chunk=400)
@@ -89,12 +100,12 @@ def run(tier):
         for clause in verdicts[rec["id"]]:
             v.violation({"clause": clause, "k": rec["k"]},
                         "%s (shape %s, %d agents, k=%d): hosts %s, done %s, %s" % (clause, m["shape"], len(rec["agents"]), rec["k"], rec["hosts"], rec["done"], rec["exc"][:1]),
-                        {"inst": m["inst"], "dep": m["dep"], "sched_seed": m["sched_seed"], "outcome": rec})
+                        {"inst": m["inst"], "dep": m["dep"], "sched_seed": m["sched_seed"], "style": m["style"], "outcome": rec})
         if not verdicts[rec["id"]] and len(rec["accepts"]) >= 4:
             v.sample({"shape": m["shape"], "caps": rec["cap"], "k": rec["k"], "footprints": rec["fp"], "hosts": rec["hosts"], "accepts": len(rec["accepts"])}, cap=3)
     v.cov["exhaustive"] = False
     v.cov["rule"] = ("DCOPs over 9 shapes (3-5 computations, DSA computations with their real footprints) deployed on 3-4 (quick) / 3-6 agents with TLC-drawn "
-                     "capacities {3,4,6,9,100} (DSA footprints are 1-4), symmetric route costs {1,2,5}, hosting costs {0,3,8}, placements and k in 1..3; 2 (quick) / 6 seeded interleavings of agent "
+                     "capacities {3,4,6,9,100} (DSA footprints are 1-4), symmetric route costs {1,2,5}, hosting costs {0,3,8} with lower-case agent names or - every other run - {1,2,5} (ties with the route costs), ample capacities and upper-case names (which sort before the search's own '__hosting__' node), placements and k in 1..3; 2 (quick) / 6 seeded interleavings of agent "
                      "loop iterations per deployment; non-trivial = at least one replica was accepted")
     v.cov["trusted_base"] = ["TLC (Replication.tla)", "vlib/orchrt.py + vlib/agentrt.py", "the acceptance recorder wrapped around UCSReplication._accept_replica"]
     v.assumptions = ["route tables are symmetric (the YAML format enforces it; the UCS budget arithmetic assumes it)",
@@ -104,6 +115,6 @@ def run(tier):
 
 def replay(path):
     d = json.load(open(path))
-    rec, m = one_run(0, d["replay"]["inst"], d["replay"]["dep"], d["replay"]["sched_seed"])
+    rec, m = one_run(0, d["replay"]["inst"], d["replay"]["dep"], d["replay"]["sched_seed"], d["replay"].get("style", 0))
     print(json.dumps(rec))
     return 1 if rec["exc"] or len(rec["done"]) != len(rec["agents"]) else 0
